@@ -219,6 +219,7 @@ type Exec struct {
 	baseAlloc        map[int]*Term
 	curLoopState     *State
 	allocChecked     bool    // C18: allocation sizes must be justified
+	allocLimit       uint64  // 0: the decoder limit (1 MiB + 64)
 	availLens        []*Term // lengths of input already in hand (len of []byte inputs, Len() of readers)
 }
 
